@@ -180,8 +180,14 @@ def m_split_next(I, st, info, args, depth):
     and the segments are the ones `split(sep).collect()` names"""
     p = I.resolve(st, args[0])
     x = deref(I, st, args[0])
-    if not (isinstance(x, Struct) and x.adt == "str::Split" and "pos" in x.fields and x.fields["how"].s == "split"):
+    if not (isinstance(x, Struct) and x.adt == "str::Split" and "pos" in x.fields and x.fields["how"].s in ("split", "splitn")):
         return None
+    limit = None
+    if x.fields["how"].s == "splitn":
+        lim = x.fields.get("limit")
+        if not (isinstance(lim, Aff) and lim.is_const() and lim.const >= 1):
+            return None
+        limit = lim.const
     sep = _sep_of(I, st, x.fields["sep"])
     if sep is None or not isinstance(p, Ptr):
         return None
@@ -197,8 +203,14 @@ def m_split_next(I, st, info, args, depth):
         I.store_to(s2, p, Struct("str::Split", None, dict(x.fields, pos=Aff(pos))))
     out = []
     n = Aff.sym(_nsym(parts))
+    if limit is not None and i >= limit:
+        return ret(st, none())
     for s2, more in MD.fork_bool(I, st, I.compare(st, "Ge", n, Aff(i + 1))):
-        if more:
+        if more and limit is not None and i == limit - 1:
+            # the last item splitn yields: everything from segment i on (one segment exactly when the string has no more than `limit`)
+            advance(s2, -1)
+            out.append((s2, "return", some(tail(s2, parts, i, sg[3]))))
+        elif more:
             advance(s2, i + 1)
             out.append((s2, "return", some(seg(parts, i))))
         else:
